@@ -2655,6 +2655,12 @@ def _indent_ops_in(roots, names):
                 out.append((x, "the line's leading blanks counted"))
             elif isinstance(x, ast.Call) and call_name(x) == "append" and len(x.args) == 1 and _is_blanks(x.args[0]):
                 out.append((x, "blanks emitted in front of the line"))
+            elif isinstance(x, ast.Call) and call_name(x) == "append" and len(x.args) == 1 and isinstance(x.args[0], ast.Constant) and x.args[0].value == "\n":
+                out.append((x, "a blank line replaced by a bare line break"))
+            elif isinstance(x, ast.Return) and isinstance(x.value, ast.Constant) and x.value.value == "\n":
+                out.append((x, "a blank line replaced by a bare line break"))
+            elif isinstance(x, ast.IfExp) and any(isinstance(b, ast.Constant) and b.value == "\n" for b in (x.body, x.orelse)):
+                out.append((x.body if isinstance(x.body, ast.Constant) and x.body.value == "\n" else x.orelse, "a blank line replaced by a bare line break"))
     return out
 
 
@@ -2742,7 +2748,20 @@ def string_aware_indent_rule(ctx, res, rule: str, modules, floor: int = 3) -> No
         held = {params[i] for i, a in enumerate(call.args) if i < len(params) and isinstance(a, ast.Name) and a.id in names}
         if not held:
             return []
-        return [(call, kind + f" (in {g.name})") for _, kind in _indent_ops_in(g.node.body, held)]
+        ops = _indent_ops_in(g.node.body, held)
+        # the flag may be handed to the helper with the line: then the helper's own tests of that parameter count
+        passed = {params[i]: a.id for i, a in enumerate(call.args) if i < len(params) and isinstance(a, ast.Name)}
+        passed.update({k.arg: k.value.id for k in call.keywords if k.arg and isinstance(k.value, ast.Name)})
+        gcfg = CFG(g.node)
+        out = []
+        for x, kind in ops:
+            inner = {}
+            for p_, a_ in passed.items():
+                nodes = gcfg.node_containing(x)
+                if nodes and all(_flag_is_off(gcfg.guards(nd.id) + _expr_conditions(nd.ast, x) if nd.ast is not None else gcfg.guards(nd.id), p_) for nd in nodes):
+                    inner[a_] = True
+            out.append((call, kind + f" (in {g.name})", inner))
+        return out
 
     def flag_of(target, it, fnode):
         if isinstance(it, ast.Call) and call_name(it) == "enumerate" and it.args:
@@ -2778,7 +2797,7 @@ def string_aware_indent_rule(ctx, res, rule: str, modules, floor: int = 3) -> No
             names = {x.id for x in ast.walk(target) if isinstance(x, ast.Name)}
             for r in roots:
                 _BLANK_LOCALS[id(r)] = blanks
-            ops = _indent_ops_in(roots, names)
+            ops = [(x, kind, {}) for x, kind in _indent_ops_in(roots, names)]
             for r in roots:
                 for c in ast.walk(r):
                     if isinstance(c, ast.Call):
@@ -2788,7 +2807,7 @@ def string_aware_indent_rule(ctx, res, rule: str, modules, floor: int = 3) -> No
             if not ops:
                 continue
             flag = flag_of(target, it, fnode)
-            for x, kind in ops:
+            for x, kind, off_inside in ops:
                 n += 1
                 slug = kind.split(" (in ")[0].replace("the line's ", "").replace(" ", "-")
                 per_kind[slug] = per_kind.get(slug, 0) + 1
@@ -2804,7 +2823,7 @@ def string_aware_indent_rule(ctx, res, rule: str, modules, floor: int = 3) -> No
                 for r in roots:
                     if any(y is x for y in ast.walk(r)):
                         conds += _expr_conditions(r, x)
-                ok = _flag_is_off(conds, flag)
+                ok = _flag_is_off(conds, flag) or off_inside.get(flag, False)
                 if not ok and site_kind == "for":
                     cfg = cfg or CFG(fnode)
                     nodes = cfg.node_containing(x)
@@ -2814,10 +2833,42 @@ def string_aware_indent_rule(ctx, res, rule: str, modules, floor: int = 3) -> No
                         f"{f.qualname.split('.', 2)[-1]}: {kind} where `{flag}` was not tested (or is on): the continuation lines of a multi-line "
                         "string literal are re-indented with the code and the literal's value changes", function=f.qualname)
     res.floor(rule, "per-line indentation operations", n, floor)
+    # (c) the flag itself: the generator walks the lines and the (sorted) string regions side by side.  Before a line is judged, the
+    # region cursor has caught up with the line's offset -- it is advanced in a LOOP while the region at hand ends before the line;
+    # one step per line falls behind as soon as a line holds two strings or comments, and the flag is then computed from a stale region
+    for hname in sorted(helpers):
+        for hf in [x for x in idx.functions.values() if x.name == hname and x.unit.modname.startswith("rope.refactor")]:
+            hnode = inline_private_calls(idx, hf)
+            line_loops = [l for l in walk_local(hnode) if isinstance(l, ast.For)]
+            advances = []
+            for l in line_loops:
+                whiles = [w for w in ast.walk(l) if isinstance(w, ast.While)]
+                for c in ast.walk(l):
+                    if isinstance(c, ast.Call) and isinstance(c.func, ast.Name) and c.func.id == "next":
+                        advances.append((c, any(any(y is c for y in ast.walk(w)) for w in whiles)))
+            if not advances:
+                continue  # no cursor (a search per line): nothing to fall behind
+            behind = [c for c, in_loop in advances if not in_loop]
+            res.add(rule, f"{hf.qualname.split('.', 2)[-1]}|the-region-cursor-catches-up-in-a-loop", not behind, f"{hf.unit.rel}:{(behind[0] if behind else advances[0][0]).lineno}",
+                    "the region cursor is advanced in a loop until it no longer lies before the line" if not behind else
+                    f"{hf.name}: the region cursor is advanced by at most ONE region per line (`{ast.unparse(behind[0])[:50]}` outside any `while`): after a line with two strings "
+                    "or comments the cursor lags, `in_string` is computed from a region that has already ended -- the next line of a multi-statement goal is "
+                    "left unindented, or the continuation line of a triple-quoted string is re-indented", function=hf.qualname)
     # the detector on fixed examples
     probe = ast.parse("def g(t, k):\n    r = []\n    for i, line in enumerate(split_lines(t, True)):\n        if i:\n            r.append(' ' * k)\n        r.append(line)\n"
                       "    for line in t.split('\\n'):\n        r.append(' ' * k + line.lstrip())\n        n = count_line_indents(line)\n").body[0]
     got = sorted(k for l in ast.walk(probe) if isinstance(l, ast.For) for _, k in _indent_ops(l))
     e = ast.parse("(p + line if i and not s else line)", mode="eval").body
-    if len(got) != 4 or not _flag_is_off(_expr_conditions(e, e.body), "s") or _flag_is_off(_expr_conditions(e, e.orelse), "s"):
+    if len(got) < 4 or not _flag_is_off(_expr_conditions(e, e.body), "s") or _flag_is_off(_expr_conditions(e, e.orelse), "s"):
         raise AnalysisError(f"{rule}: the detector of per-line indentation operations no longer sees the fixed examples: {got}")
+
+
+def rename_module_step(idx):
+    """The method of `Rename` that builds the move of the renamed module's file (`_rename_module` on the pinned tree): found by what
+    it does -- it constructs the MoveResource -- so that renaming the private method loses nothing."""
+    cls = idx.need_class("rope.refactor.rename.Rename")
+    ms = [m for m in cls.methods.values() if any(call_name(c) == "MoveResource" for c in calls_in(m.node))]
+    if not ms:
+        raise AnalysisError("anchor=rope.refactor.rename.Rename: no method constructs the MoveResource of a module rename")
+    own = [m for m in ms if m.name != "get_changes"]
+    return (own or ms)[0]
